@@ -51,11 +51,35 @@ const (
 	Throws                 // logs, throws a user exception (class UserThrow)
 )
 
-// Method is a scripted conversion method.
+// Effect is what the body of a scripted method does to the object's conversion
+// methods before it returns (the methods are re-read by 8.12.8 only when reached).
+type Effect uint8
+
+const (
+	EffNone          Effect = iota
+	EffReplaceOther         // own data property for the other method: a function returning "late" (label "*")
+	EffDeleteOther          // delete the own property of the other method (the prototype's / built-in shows through)
+	EffUndefOther           // the other method becomes an own data property with value undefined
+	EffAccessorOther        // the other method becomes an own accessor whose logging getter returns a function returning "late"
+	EffReplaceSelf          // as EffReplaceOther, on the method that is running
+	EffDeleteSelf           // as EffDeleteOther, on the method that is running
+)
+
+// Method is a scripted conversion method: the property slot ("valueOf" or
+// "toString", own or on the prototype) and what its value does.
 type Method struct {
 	R Ret
 	V Value // RetPrim only
+	// Acc: the slot is an accessor property; its getter logs "<id>.get <name><label>" and
+	// returns the function described by R (or undefined / 1 for Absent / NonCallable).
+	Acc bool
+	// GetThrows: the getter throws a user exception (Acc only).
+	GetThrows bool
+	Eff       Effect
+	Label     string // suffix of the name in log entries ("@proto" for prototype slots, "*" for replacements)
 }
+
+func (m Method) present() bool { return m.R != Inherit || m.Acc }
 
 // UserThrow is the error class scripted methods throw.
 const UserThrow = "EvalError"
@@ -69,6 +93,10 @@ type Obj struct {
 	Callable bool
 	ValueOf  Method
 	ToString Method
+	// ProtoValueOf / ProtoToString: the slots on the object's prototype, consulted when
+	// the object has no own property of that name (zero value: the built-in of the class).
+	ProtoValueOf  Method
+	ProtoToString Method
 	// Built-in conversion results for Inherit methods:
 	//   Object.prototype.valueOf returns the object itself (modelled directly);
 	//   wrappers: Prim is the [[PrimitiveValue]]; BuiltinStr is what the class's toString returns.
@@ -127,23 +155,69 @@ type Ctx struct {
 
 func (c *Ctx) log(s string) { c.Log = append(c.Log, s) }
 
-// call runs a scripted method: returns (result, thrown, ran).
-func (c *Ctx) call(o *Obj, name string, m Method) (Value, *Thrown, bool) {
+func (o *Obj) own(name string) *Method {
+	if name == "valueOf" {
+		return &o.ValueOf
+	}
+	return &o.ToString
+}
+
+func other(name string) string {
+	if name == "valueOf" {
+		return "toString"
+	}
+	return "valueOf"
+}
+
+// invoke is one step of 8.12.8: [[Get]] of the named method (own property, else the
+// prototype's, else the built-in), then, if it is callable, [[Call]] with the object
+// as this. Returns (result, thrown, ran).
+func (c *Ctx) invoke(o *Obj, name string) (Value, *Thrown, bool) {
+	m := *o.own(name)
+	if !m.present() {
+		if name == "valueOf" {
+			m = o.ProtoValueOf
+		} else {
+			m = o.ProtoToString
+		}
+	}
+	if m.Acc {
+		c.log(o.ID + ".get " + name + m.Label)
+		if m.GetThrows {
+			return Value{}, &Thrown{Class: UserThrow}, true
+		}
+	}
 	switch m.R {
 	case Absent, NonCallable:
 		return Value{}, nil, false
-	case RetPrim:
-		c.log(o.ID + "." + name)
-		return m.V, nil, true
-	case RetObj:
-		c.log(o.ID + "." + name)
-		c.fresh++
-		return ObjectOf(&Obj{ID: "fresh" + strconv.Itoa(c.fresh), Class: "Object"}), nil, true
-	case Throws:
-		c.log(o.ID + "." + name)
+	case RetPrim, RetObj, Throws:
+		c.log(o.ID + "." + name + m.Label)
+		late := Method{R: RetPrim, V: Str("late"), Label: "*"}
+		switch m.Eff {
+		case EffReplaceOther:
+			*o.own(other(name)) = late
+		case EffDeleteOther:
+			*o.own(other(name)) = Method{}
+		case EffUndefOther:
+			*o.own(other(name)) = Method{R: Absent}
+		case EffAccessorOther:
+			late.Acc = true
+			*o.own(other(name)) = late
+		case EffReplaceSelf:
+			*o.own(name) = late
+		case EffDeleteSelf:
+			*o.own(name) = Method{}
+		}
+		switch m.R {
+		case RetPrim:
+			return m.V, nil, true
+		case RetObj:
+			c.fresh++
+			return ObjectOf(&Obj{ID: "fresh" + strconv.Itoa(c.fresh), Class: "Object"}), nil, true
+		}
 		return Value{}, &Thrown{Class: UserThrow}, true
 	}
-	// Inherit: built-in behaviour, nothing logged
+	// no scripted slot anywhere: built-in behaviour, nothing logged
 	if name == "valueOf" {
 		if o.Prim != nil {
 			return *o.Prim, nil, true
@@ -172,16 +246,13 @@ func (c *Ctx) DefaultValue(o *Obj, hint Hint) (Value, *Thrown) {
 			hint = HintNumber
 		}
 	}
-	type step struct {
-		name string
-		m    Method
-	}
-	seq := []step{{"valueOf", o.ValueOf}, {"toString", o.ToString}}
+	seq := [2]string{"valueOf", "toString"}
 	if hint == HintString {
-		seq[0], seq[1] = seq[1], seq[0]
+		seq = [2]string{"toString", "valueOf"}
 	}
-	for _, s := range seq {
-		v, th, ran := c.call(o, s.name, s.m)
+	for _, name := range seq {
+		// steps 1-2 / 3-4: Get, IsCallable, Call — the second method is read only when reached
+		v, th, ran := c.invoke(o, name)
 		if th != nil {
 			return Value{}, th
 		}
